@@ -27,12 +27,13 @@ class Reductions(object):
         return self.st.lower
 
     def _equal(self, a, b):
-        s = z3.Solver()
-        s.set('timeout', 3000)
-        s.add(*self.st.pc)
-        s.add(*core.side_conditions())
-        s.add(z3.Not(core.sc_eq(a, b).t))
-        return s.check() == z3.unsat
+        goal = z3.simplify(core.sc_eq(a, b).t)
+        if z3.is_true(goal):
+            return True
+        if z3.is_false(goal):
+            return False
+        from . import vc
+        return vc.prove(list(self.st.pc), core.side_conditions(congruence=True), goal, quick=True).status == 'proved'
 
     def reduce(self, fr, kind, summand, extra=()):
         low = self._lower()
@@ -44,7 +45,21 @@ class Reductions(object):
                 for c, a in terms:
                     t = core._sc(c) * self._reduce1(fr, kind, a, extra)
                     acc = t if acc is None else acc + t
-                return acc if acc is not None else S.lift(0.0)
+                if acc is None:
+                    return S.lift(0.0)
+                # monotonicity for the un-expanded summand (e.g. w * (x - y)^2 >= 0)
+                ls = low(summand)
+                chk = core.mk_solver(800)
+                chk.add(*self.st.pc)
+                chk.add(*core.side_conditions())
+                if isinstance(ls, S) and not ls.is_bool and chk.check((ls < 0).t) == z3.unsat:
+                    self.st.assume(acc >= 0)
+                elif isinstance(ls, C):
+                    if chk.check((ls.re < 0).t) == z3.unsat:
+                        self.st.assume(core._sc(acc).real >= 0)
+                    if chk.check((ls.im != 0).t) == z3.unsat:
+                        self.st.assume(core.sc_eq(core._sc(acc).imag, 0))
+                return acc
         return self._reduce1(fr, kind, summand, extra)
 
     def _reduce1(self, fr, kind, summand, extra=()):
@@ -61,6 +76,21 @@ class Reductions(object):
         else:
             sym = S(z3.Real('red.%s.%d' % (kind, n)))
         self.records.append(Record(kind, summand, extra, sym, ls))
+        # monotonicity of sums / maxima: a summand that is >= 0 at every index gives a result >= 0
+        if kind in ('sum', 'max') and isinstance(ls, S) and not ls.is_bool:
+            chk = core.mk_solver(800)
+            chk.add(*self.st.pc)
+            chk.add(*core.side_conditions())
+            if chk.check((ls < 0).t) == z3.unsat:
+                self.st.assume(sym >= 0)
+        elif kind == 'sum' and isinstance(ls, C):
+            chk = core.mk_solver(800)
+            chk.add(*self.st.pc)
+            chk.add(*core.side_conditions())
+            if chk.check((ls.re < 0).t) == z3.unsat:
+                self.st.assume(sym.re >= 0)
+            if chk.check((ls.im != 0).t) == z3.unsat:
+                self.st.assume(core.sc_eq(sym.im, 0))
         return sym
 
     def pnorm(self, fr, content, p):
@@ -69,9 +99,10 @@ class Reductions(object):
         if isinstance(p, float) and p == float('inf'):
             return self.reduce(fr, 'max', absx)
         if p == 2:
-            sq = self.reduce(fr, 'sum', core.VPw('square', (absx,)))
+            # |x|^2 without the conditional of abs: x*x (real), re^2 + im^2 (complex)
+            sq = self.reduce(fr, 'sum', core.VPw('abs2', (content,)))
             return core.ssqrt(sq)
         if p == 1:
             return self.reduce(fr, 'sum', absx)
         s = self.reduce(fr, 'sum', core.VPw('power', (absx, p)))
-        return s ** (1 / core._sc(p))
+        return s ** (1 / p if isinstance(p, (int, float)) else 1 / core._sc(p))
